@@ -116,13 +116,13 @@ def register(kernel):
            coq_params=[("stop0", "bool"), ("last0", "option Z"), ("epoch", "Z"), ("period", "Z"), ("len_ev", "Z"), ("patience", "Z"), ("dev", "R"), ("tol", "R")],
            result=(B, OZ),
            thm_params=[("V", "Type"), ("value_of", "V -> result R"), ("variance_of", "V -> result R"),
-                       ("st", "stopper R"), ("ev", "evaluator V"), ("e", "Z"), ("d", "R")],
+                       ("st", "stopper R"), ("ev", "evaluator V"), ("e", "Z"), ("d", "R"), ("stop0", "bool")],
            hyps=["es_current_deviation ROps value_of variance_of st ev = Ok d"],
-           gen_args="false (st_last_epoch st) e (st_period st) (Z.of_nat (ev_len ev)) (Z.of_nat (st_patience st)) d (st_tol st)",
-           model="match es_on_epoch_end ROps value_of variance_of st ev e with Ok (b, st') => (b, st_last_epoch st') | Err _ => (true, None) end",
+           gen_args="stop0 (st_last_epoch st) e (st_period st) (Z.of_nat (ev_len ev)) (Z.of_nat (st_patience st)) d (st_tol st)",
+           model="match es_on_epoch_end ROps value_of variance_of st ev e with Ok (b, st') => (orb stop0 b, st_last_epoch st') | Err _ => (true, None) end",
            model_name="Callbacks.es_on_epoch_end",
-           tactic="intros V value_of variance_of st ev e d H; cbv [GEN es_on_epoch_end fires bind]; rewrite H; "
-                  "cbv [Rltb]; cbn [nltb ROps]; tie_split; cbn [st_last_epoch]; tie_close", **es)
+           tactic="intros V value_of variance_of st ev e d stop0 H; cbv [GEN es_on_epoch_end fires bind]; rewrite H; "
+                  "cbv [Rltb]; cbn [nltb ROps]; destruct stop0; tie_split; cbn [st_last_epoch orb]; tie_close", **es)
 
     # ------------------------------------------------------------------ C12 / C07: the arithmetic of fit
     fit = dict(file="qucumber/nn_states/neural_state.py", func="NeuralStateBase.fit")
